@@ -37,11 +37,8 @@ type zzGraph struct {
 // (sharing allowed) and returns its descriptor.
 func (g *zzGraph) zzImage(docker bool) descriptor.Descriptor {
 	cfg := g.pool[0]
-	if zzTier() > 0 {
-		cfg = g.pool[zzInt("cfg", 0, len(g.pool)-1)]
-	}
 	cfg.MediaType = mediatype.OCI1ImageConfig
-	nl := zzInt("n_layers", 0, 1+zzTier())
+	nl := zzInt("n_layers", 0, 1)
 	layers := []descriptor.Descriptor{}
 	for i := 0; i < nl; i++ {
 		l := g.pool[zzInt("layer", 0, len(g.pool)-1)]
@@ -126,7 +123,7 @@ func zzReachable(seen map[digest.Digest]bool, d digest.Digest, depth int) {
 func zzBuild() (*zzGraph, ref.Ref, []descriptor.Descriptor) {
 	zzos.Reset()
 	g := &zzGraph{}
-	for i := 0; i < 3+zzTier(); i++ {
+	for i := 0; i < 3; i++ {
 		g.pool = append(g.pool, zzPutBlob([]byte{'b', byte('0' + i)}))
 	}
 	idx := indexCreate()
@@ -137,7 +134,11 @@ func zzBuild() (*zzGraph, ref.Ref, []descriptor.Descriptor) {
 		if i > 0 && zzTier() == 0 {
 			kinds = 0 // quick: the second entry is a plain image
 		}
-		switch zzInt("top_kind", 0, kinds) {
+		kind := zzInt("top_kind", 0, kinds)
+		if i > 0 && kind == 2 {
+			kind = 0 // thorough: the second entry is an image, a Docker image or an artifact
+		}
+		switch kind {
 		case 3:
 			d = g.zzArtifactM()
 		case 0:
